@@ -13,7 +13,8 @@ PROPERTY = "C05"
 LEVEL = "exploration"
 RULE = ("Kernel level: Hypothesis draws NW in 1..200 (every N*W factorisation), K in 1..4, 1..6 points, SPD precision "
         "matrices Q diag(e) Q^T with condition number <= 1e8 (<= 1e4 in ~90% of cases) whose log-determinant is steered to a "
-        "drawn target in [-3000, 3000], random means and points (seed-expanded); a ModelState is built from the public "
+        "drawn target in [-3000, 3000], random means and points (seed-expanded; in 5 of 8 families zero-centred, otherwise with "
+        "a common offset 2^8..2^40 and exactly representable differences, so cancellation-prone rewrites of the quadratic form show); a ModelState is built from the public "
         "containers and the all-points/all-clusters table and the per-point function are compared entrywise with "
         "1/2(log det Theta - (x-mu)^T Theta (x-mu) - NW log 2pi), log det from a Cholesky factor, tolerance "
         "(1e-9 + 4 n^2 eps kappa)(1+|ref|), every value finite; JIT-compiled and interpreted kernels. End to end: in every "
@@ -35,7 +36,8 @@ def kernel_case(draw):
     kappa_exp = draw(st.one_of(st.floats(0, 4), st.floats(0, 4), st.floats(0, 4), st.floats(0, 4), st.floats(4, 8)))
     targets = [draw(st.one_of(st.floats(-3000, 3000), st.sampled_from([-3000.0, 3000.0, -800.0, 800.0, 0.0]))) for _ in range(K)]
     return {"nw": nw, "W": W, "K": K, "T": T, "kappa_exp": kappa_exp, "logdet_targets": targets,
-            "seed": draw(st.integers(0, 2 ** 32 - 1)), "spread": draw(st.sampled_from([0.1, 1.0, 10.0]))}
+            "seed": draw(st.integers(0, 2 ** 32 - 1)), "spread": draw(st.sampled_from([0.1, 1.0, 10.0])),
+            "offset_pow2": draw(st.sampled_from([None, None, None, 8, 16, 24, 32, 40]))}
 
 
 def build_kernel_inputs(case):
@@ -51,6 +53,12 @@ def build_kernel_inputs(case):
         thetas.append((th + th.T) / 2)
         means.append(rng.normal(0, case["spread"], size=nw))
     pts = rng.normal(0, case["spread"], size=(T, nw)) + means[0] * rng.integers(0, 2, size=(T, 1))
+    if case.get("offset_pow2") is not None:
+        # data with a large common offset relative to its spread: 2**k + (multiples of 2**-8 in [-4,4]); every value and
+        # every difference point - mean is exactly representable, so the reference density carries no input rounding
+        off = 2.0 ** case["offset_pow2"]
+        means = [off + rng.integers(-1024, 1025, size=nw) / 256.0 for _ in range(K)]
+        pts = off + rng.integers(-1024, 1025, size=(T, nw)) / 256.0
     return thetas, means, pts
 
 
@@ -98,6 +106,8 @@ def execute_kernel(case, t):
         t.cls("logdet_outside_exp_range")
     if max(kappas) > 1e4:
         t.cls("kappa>1e4")
+    if case.get("offset_pow2") is not None:
+        t.cls("large_common_offset")
     if big or nw >= 50:
         t.mark_nontrivial({"NW": nw, "logdets": [round(x, 1) for x in logdets], "kappa": [float(f"{k:.3g}") for k in kappas]})
 
@@ -172,7 +182,7 @@ SUBCHECKS = [
     SubCheck(name="likelihood_kernels_vs_textbook_density", strategy=kernel_case, execute=execute_kernel, pinned=_pinned_kernel,
              budget={"quick": 500, "thorough": 20000}, shards={"quick": 4, "thorough": 8}, modes=["jit", "nojit"],
              min_nontrivial_fraction=0.3),
-    SubCheck(name="end_to_end_tables_and_result_fields", strategy=lambda: gen.e2e_config(betas=(0.0, 0.5, 2.0, 10.0, 50.0)),
+    SubCheck(name="end_to_end_tables_and_result_fields", strategy=lambda: gen.e2e_config(betas=(0.0, 0.5, 2.0, 10.0, 50.0), offsets=(0.0, 0.0, 1e3, 1e5, -1e6)),
              execute=execute_e2e, budget={"quick": 128, "thorough": 3000}, shards={"quick": 16, "thorough": 8}, modes=E2E_MODES,
              min_nontrivial_fraction=0.3),
 ]
